@@ -256,6 +256,8 @@ func realWalk(v *walkView, ws *WalkScn, blocks []*commonmark.RootBlock, histCap 
 		}
 		return ev
 	}
+	var sameOpts *commonmark.WalkOptions
+	depth, nestedCnt := 0, 0
 	nested := func(c *commonmark.Cursor, before walkEvent) {
 		if !ws.Reentrant || len(blocks) == 0 {
 			return
@@ -263,11 +265,23 @@ func realWalk(v *walkView, ws *WalkScn, blocks []*commonmark.RootBlock, histCap 
 		// a complete nested walk over another block, with its own callbacks
 		obs.NestedWalks++
 		other := blocks[(obs.Callbacks*7+1)%len(blocks)].AsNode()
-		cnt := 0
-		commonmark.Walk(other, &commonmark.WalkOptions{
-			Pre:  func(nc *commonmark.Cursor) bool { cnt++; return cnt < 64 },
-			Post: func(nc *commonmark.Cursor) bool { return cnt < 48 },
-		})
+		if ws.SameOpts && sameOpts != nil {
+			// the nested walk gets the outer walk's own *WalkOptions; its
+			// callbacks see depth > 0 and answer from a counter
+			if v.root == (commonmark.Node{}) {
+				other = v.root // virtual views: the only root their child functions understand
+			}
+			depth++
+			nestedCnt = 0
+			commonmark.Walk(other, sameOpts)
+			depth--
+		} else {
+			cnt := 0
+			commonmark.Walk(other, &commonmark.WalkOptions{
+				Pre:  func(nc *commonmark.Cursor) bool { cnt++; return cnt < 64 },
+				Post: func(nc *commonmark.Cursor) bool { return cnt < 48 },
+			})
+		}
 		after := walkEvent{before.Post, c.Node(), c.Parent(), c.ParentBlock(), c.Index()}
 		if after != before && obs.NestedFail == "" {
 			obs.NestedFail = fmt.Sprintf("callback %d: cursor changed by a nested walk: before %s, after %s", obs.Callbacks, describeEvent(before), describeEvent(after))
@@ -276,6 +290,10 @@ func realWalk(v *walkView, ws *WalkScn, blocks []*commonmark.RootBlock, histCap 
 	opts := &commonmark.WalkOptions{ChildCount: v.childCount, Child: v.child}
 	if !ws.PreNil {
 		opts.Pre = func(c *commonmark.Cursor) bool {
+			if depth > 0 {
+				nestedCnt++
+				return nestedCnt < 64
+			}
 			simrt.Yield(sitePre)
 			ev := inspect(c, false)
 			nested(c, ev)
@@ -292,6 +310,10 @@ func realWalk(v *walkView, ws *WalkScn, blocks []*commonmark.RootBlock, histCap 
 	}
 	if !ws.PostNil {
 		opts.Post = func(c *commonmark.Cursor) bool {
+			if depth > 0 {
+				nestedCnt++
+				return nestedCnt < 48
+			}
 			simrt.Yield(sitePost)
 			ev := inspect(c, true)
 			nested(c, ev)
@@ -306,6 +328,7 @@ func realWalk(v *walkView, ws *WalkScn, blocks []*commonmark.RootBlock, histCap 
 			return d
 		}
 	}
+	sameOpts = opts
 	commonmark.Walk(v.root, opts)
 	return obs
 }
